@@ -56,7 +56,11 @@ class Collector:
         except InterpRaise as e:
             # the analysed code raises on this path: for an obligation that expects a value this
             # is a violation of the property (the construct cannot deliver), reported with the
-            # exception text
+            # exception text.  An exception that surfaced inside a third-party *summary* may be
+            # a deficiency of the summary: undecided, never a violation.
+            if e.origin == "native":
+                self.obs.append(ob(oid, construct, rule, UNDECIDED, "summary raised %s [%s]" % (e, e.where), nontrivial))
+                return False
             self.obs.append(ob(oid, construct, rule, VIOLATION, "analysed code raises %s [%s]" % (e, e.where), nontrivial))
         return False
 
@@ -125,7 +129,7 @@ def run_property(pid, tier, seed, jobs=None):
     """returns exit code"""
     t0 = time.time()
     modname = "fverif.props.%s" % pid.lower()
-    evidence_path = os.path.join(VERIF, "evidence", "%s.json" % pid)
+    evidence_path = os.path.join(os.environ.get("FVERIF_EVIDENCE_DIR") or os.path.join(VERIF, "evidence"), "%s.json" % pid)
     try:
         os.remove(evidence_path)
     except OSError:
@@ -256,7 +260,7 @@ def run_property(pid, tier, seed, jobs=None):
             print("ANALYSIS-ERROR property=%s reason=floor %s" % (pid, m))
         code = 2
     if viol:
-        rp = os.path.join(VERIF, "replay")
+        rp = os.environ.get("FVERIF_REPLAY_DIR") or os.path.join(VERIF, "replay")
         os.makedirs(rp, exist_ok=True)
         path = os.path.join(rp, "%s.json" % pid)
         with open(path, "w") as f:
